@@ -33,7 +33,9 @@ type dtLeaf struct {
 type tableEval func(g *ssa.Global) (*relang.Set, bool)
 
 type dtConfig struct {
-	Tables tableEval
+	// Aliases: other SSA values known to hold the same value as Var (repeated loads of an unmodified field)
+	Aliases map[ssa.Value]bool
+	Tables  tableEval
 	Var    ssa.Value
 	Dom    *relang.Set
 	Leaf   func(b *ssa.BasicBlock) (string, bool) // effect reached in this block?
@@ -124,13 +126,13 @@ func decisionTable(start *ssa.BasicBlock, cfg dtConfig) []dtLeaf {
 				}
 			}
 		case *ssa.BinOp:
-			if strip(c.X) == cfg.Var {
+			if strip(c.X) == cfg.Var || cfg.Aliases[strip(c.X)] {
 				if kv, ok := constInt(c.Y); ok {
 					if t, f := cmpSplit(c.Op, kv, s, true); t != nil {
 						return t, f, true
 					}
 				}
-			} else if strip(c.Y) == cfg.Var {
+			} else if strip(c.Y) == cfg.Var || cfg.Aliases[strip(c.Y)] {
 				if kv, ok := constInt(c.X); ok {
 					if t, f := cmpSplit(c.Op, kv, s, false); t != nil {
 						return t, f, true
